@@ -98,6 +98,14 @@ func zipCorpusLists() [][]gen.ZipFileSpec {
 		fs2[1].Size = modzip.MaxZipFile - modzip.MaxGoMod + d
 		add(fs2)
 	}
+	// LICENSE-like names outside the root at the per-file limit: only the root LICENSE is limited
+	for _, p := range []string{"third_party/LICENSE", "x/LICENSE.txt", "LICENSE/x", "license", "a/b/LICENSE", "go.mod/x"} {
+		for _, d := range []int64{-1, 0, 1} {
+			fs := zcList("go.mod", p)
+			fs[1].Size = modzip.MaxLICENSE + d
+			add(fs)
+		}
+	}
 	// vendoring under go 1.24: two vendor components; a nested module inside a non-top-level
 	// vendor directory listed before the root go.mod; an ill-formed name inside a vendored package
 	add(zcList("go.mod", "pkg/vendor/example.com/x/vendor/y.go", "pkg/vendor/example.com/x/z.go"))
@@ -150,6 +158,14 @@ func zipCorpusArchives(m module.Version) [][]gen.ZipArchEntry {
 		l2 := ent("data", "x")
 		l2.Declared = uint64(modzip.MaxZipFile - 500 + d)
 		add(g, l2)
+	}
+	// LICENSE-like names outside the root at the per-file limit
+	for _, p := range []string{"third_party/LICENSE", "x/LICENSE.txt", "LICENSE/x", "license", "a/b/LICENSE"} {
+		for _, d := range []int64{-1, 0, 1} {
+			l := ent(p, "x")
+			l.Declared = uint64(modzip.MaxLICENSE + d)
+			add(ent("go.mod", "module m\n"), l)
+		}
 	}
 	// fold-equal names
 	for _, pr := range [][2]string{{"k.go", "\u212a.go"}, {"\u03c9.go", "\u2126.go"}, {"stra\u00dfe.go", "stra\u1e9ee.go"}, {"\u03c3.go", "\u03c2.go"}, {"s/x.go", "\u017f/y.go"}} {
@@ -211,5 +227,17 @@ func zipCorpusTrees() []zipCorpusTree {
 	// no root go.mod
 	out = append(out, zipCorpusTree{[]*gen.ZipTreeNode{f("a.go", "a"), d("p", f("b.go", "b"))}, 1},
 		zipCorpusTree{[]*gen.ZipTreeNode{f("a.go", "a"), d("p", f("b.go", "b"))}, 5})
+	return out
+}
+
+// zipCorpusModules are module path/version pairs run with a small well-formed list: +incompatible
+// versions whose major number has two or three digits starting with 1 (below "v2" as strings),
+// and v0/v1 ones.
+func zipCorpusModules() []module.Version {
+	var out []module.Version
+	for _, v := range []string{"v17.0.0+incompatible", "v10.1.2+incompatible", "v11.0.0+incompatible", "v19.9.9+incompatible",
+		"v100.0.0+incompatible", "v123.4.5+incompatible", "v1.2.3+incompatible", "v0.1.0+incompatible", "v2.0.0+incompatible", "v9.0.0+incompatible"} {
+		out = append(out, module.Version{Path: "rsc.io/quote", Version: v})
+	}
 	return out
 }
